@@ -1982,7 +1982,13 @@ def _run(ck: Check):
         'id() walk for shared mutable objects and by a battery of edits on '
         'one side; the __reduce__ payload, rebuild_circuit (valid and '
         'malformed payloads), PassData become/copy/update/setitem/getitem '
-        'and update_error_mul are also replayed through the Lean model; a '
+        'and update_error_mul are also replayed through the Lean model; '
+        'equality/hash: every re-listing / round trip of coupling graphs, '
+        'circuit gates and circuits must be ==, hash equal and the same dict '
+        'key, prefixes / extensions / other sizes must differ, verdicts also '
+        'from the model of the fixed __eq__/__hash__; sharing: 17 circuit-to-'
+        'circuit calls and 9 in-process pass pipelines checked for shared '
+        'Operations and leaking edits; a '
         'circuit counts as non-trivial with more than 6 operations')
     signal.alarm(0)
     if not proved:
@@ -1993,10 +1999,12 @@ def _run(ck: Check):
             {'broken': 'BqVerif.Props.C16', 'log': ck.proof_failure},
             found_input=False)
     ck.assumptions += [
-        'C16_reduce_rebuild_dag assumes iterOkB c c.iterKahn (the DAG '
-        'iterator yields non-decreasing cycle indices and every operation '
-        'once - C05\'s iter_kahn_eq_rowmajor); the driver evaluates this '
-        'hypothesis on every circuit of the workload',
+        'C16_reduce_rebuild_dag assumes kahnCovers c (the DAG iterator '
+        'yields every operation of cycle k with index k, once; that the '
+        'indices are non-decreasing and in range is proved, C16_kahn_order); '
+        'C16_reduce_rebuild_dag_of_rowmajor derives it from iterKahn = '
+        'iterCyc (C05\'s iter_kahn_eq_rowmajor, in progress); the driver '
+        'evaluates the hypothesis on every circuit of the workload',
         'clause (d) "shares no mutable state" is a heap property: decided by '
         'the harness (id() walk + edits), not by the record model; the Lean '
         'tables only check that every copy()/become(deepcopy=True) assignment '
